@@ -48,7 +48,9 @@ Definition elements (x : src) : list value :=
    Deck: iter() rewinds the cursor and returns self; Bag: iter() returns a separate cursor object;
    VBag: iter() returns the built-in iterator of an inner vec; Chained: iter() returns inner.iter().filter(even).map(+k).
    Whatever was traversed before, EVERY traversal (for, map, filter, collect, reduce, chains) sees this sequence: *)
-Inductive okind : Type := KDeck | KBag | KVBag | KChained.
+Inductive okind : Type := KDeck | KBag | KVBag | KChained
+  | KScaled | KLimited | KCounted   (* an iterator instance whose FIELD next wraps its class's next (scale by z | stop after z | count) *)
+  | KFieldIter.                     (* an instance whose FIELD iter returns a fresh cursor over the items *)
 
 (* adapter chains, innermost first *)
 Inductive op : Type := OpMap (f : fn) | OpFilter (p : pr).
@@ -65,6 +67,8 @@ Definition chain_spec (ops : list op) (l : list value) : list value :=
 Definition obj_elems (k : okind) (items : list value) (z : Z) : list value :=
   match k with
   | KChained => List.map (apply_fn (AddK z)) (List.filter (apply_pr IsEven) (until_stop items))
+  | KScaled => List.map (apply_fn (MulK z)) (until_stop items)
+  | KLimited => firstn (Z.to_nat z) (until_stop items)
   | _ => until_stop items
   end.
 
